@@ -348,7 +348,7 @@ Definition in_domain (c : call) : bool :=
        let w2 := map (key_app (c_key c)) (slice (s_start2 c) (s_end2 c l2) l2) in
        match w1 with
        | [] => (s_start2 c =? 0)%nat                                   (* KF empty pattern: offset without start2 *)
-       | _ => negb (c_from_end c) || negb (s_prefix_match (c_test c) w1 w2)   (* KF from-end never tries offset 0 *)
+       | _ => true
        end)
   | FMismatch =>
       bounds2_ok c && not_test_not (c_test c) &&
